@@ -198,34 +198,51 @@ impl Prop for C09 {
         }
     }
 
-    fn exhaustive(&mut self, _tier: Tier) -> Vec<Val> {
-        // every drop point x every choice list of length 5 over 4 actors for small shapes
+    fn exhaustive(&mut self, tier: Tier) -> Vec<Val> {
+        self.exhaustive_shard(tier, 0, 1).unwrap_or_default()
+    }
+
+    /// every maximal schedule of the real Pipe threads for every drop point of tiny shapes
+    /// (stateless depth-first re-execution), plus all choice lists of length 6 for Buffered
+    fn exhaustive_shard(&mut self, _tier: Tier, k: usize, m: usize) -> Option<Vec<Val>> {
         let mut v = vec![];
-        for (n, w) in [(2usize, 2usize), (3, 2)] {
+        for (n, w, cap) in [(1usize, 2usize, 100_000usize), (2, 2, 100_000), (3, 2, 30_000), (2, 3, 30_000)] {
+            let xs: Vec<i64> = (0..n).map(|i| i as i64 + 5).collect();
             for dropk in 0..=n {
-                for code in 0..4usize.pow(5) {
-                    let mut c = code;
-                    let ch: Vec<Val> = (0..5)
-                        .map(|_| {
-                            let x = c % 4;
-                            c /= 4;
-                            Val::u(x)
-                        })
-                        .collect();
+                for ch in enumerate_pipe_schedules_shard(&xs, w, Some(dropk), cap / m + 1, k, m) {
                     v.push(Val::L(vec![
                         Val::I(0),
-                        Val::L((0..n).map(|i| Val::I(i as i64)).collect()),
+                        Val::L(xs.iter().map(|x| Val::I(*x)).collect()),
                         Val::u(w),
-                        Val::L(ch.clone()),
+                        Val::L(ch.into_iter().map(Val::u).collect()),
                         Val::I(dropk as i64),
                         Val::I(0),
                     ]));
-                    for cap in 0..=2usize {
+                }
+            }
+        }
+        let mut idx = 0usize;
+        for n in [2usize, 3] {
+            for dropk in 0..=n {
+                for cap in 0..=2usize {
+                    for code in 0..3usize.pow(6) {
+                        idx += 1;
+                        if idx % m != k {
+                            continue;
+                        }
+                        let mut c = code;
+                        let ch: Vec<Val> = (0..6)
+                            .map(|_| {
+                                let x = c % 3;
+                                c /= 3;
+                                Val::u(x)
+                            })
+                            .collect();
                         v.push(Val::L(vec![
                             Val::I(1),
                             Val::L((0..n).map(|i| Val::I(i as i64)).collect()),
                             Val::u(0),
-                            Val::L(ch.clone()),
+                            Val::L(ch),
                             Val::I(dropk as i64),
                             Val::u(cap),
                         ]));
@@ -233,7 +250,7 @@ impl Prop for C09 {
                 }
             }
         }
-        v
+        Some(v)
     }
 
     fn run(&mut self, input: &Val) -> Option<(Val, Vec<String>)> {
